@@ -385,8 +385,10 @@ func (fr *Frame) checkFrame(c *Contract, scope map[string]*Val) {
 			}
 		}
 	}
-	_ = heapAll
 	name := shortFuncName(fr.fn.String())
+	if !heapAll {
+		fr.checkHeapFrame(c, scope, name)
+	}
 	for _, g := range []string{"$pos", "$reads", "$writes"} {
 		if named[g] {
 			continue
@@ -400,5 +402,51 @@ func (fr *Frame) checkFrame(c *Contract, scope map[string]*Val) {
 			was = fr.vc.ghostInit(g)
 		}
 		fr.vc.obligeNamed(fr, fmt.Sprintf("%s/frame/%s", name, g), "frame", eq(now, was), nil, g+" is not in the assigns clause and must be unchanged")
+	}
+}
+
+// checkHeapFrame: every location that existed at function entry and is not
+// named by an assigns clause holds its entry value at this return.
+func (fr *Frame) checkHeapFrame(c *Contract, scope map[string]*Val, name string) {
+	vc := fr.vc
+	locs, _, _ := fr.assignLocs(c.Assigns, scope, fr.entry)
+	var keys []string
+	for k, now := range fr.st.heap {
+		if was, ok := fr.entry.heap[k]; ok && was == now {
+			continue
+		}
+		if _, ok := fr.entry.heap[k]; !ok && now == k+"_0" {
+			continue
+		}
+		keys = append(keys, k)
+	}
+	sort.Strings(keys)
+	for _, k := range keys {
+		lf := leafByKey[k]
+		a := vc.fresh("fr_a", "Int")
+		conds := []string{le("1", a), lt(a, fr.entry.wm)}
+		for _, loc := range locs {
+			if loc.cell {
+				for _, l := range flatten(loc.t) {
+					if l.Key == k {
+						conds = append(conds, neq(a, add(loc.addr, intLit(int64(l.Slot)))))
+					}
+				}
+				continue
+			}
+			touches := false
+			for _, l := range flatten(loc.elemT) {
+				if l.Key == k {
+					touches = true
+				}
+			}
+			if touches {
+				conds = append(conds, not(and(le(loc.lo, a), lt(a, loc.hi))))
+			}
+		}
+		now := vc.read(fr.st, lf, a)
+		was := vc.read(fr.entry, lf, a)
+		vc.obligeNamed(fr, fmt.Sprintf("%s/frame/%s", name, k), "frame", imp(and(conds...), eq(now, was)), nil,
+			"memory of kind "+strings.TrimPrefix(k, "H_")+" outside the assigns clause is unchanged")
 	}
 }
